@@ -1468,8 +1468,7 @@ class Nexus(object):
                     continue
                 else:
                     assert False, "Something went terribly wrong. " "Unknown error behaviour {}".format(error_behavior)
-            else:
-                _result_dict[_name] = _val
+            _result_dict[_name] = _val
 
         return _result_dict
 
